@@ -248,7 +248,7 @@ func VerifMiddleware(n int) {
 	setCL, explicitHeader := vBool("setcl"), vBool("writeheader")
 	// which minifier (if any) must serve: Content-Type first, else the extension of the request path
 	mt := ct
-	if mt == "" && uri == "/style.css" {
+	if mt == "" && (uri == "/style.css" || uri == "/x.css?v=1") { // the extension of the path; the query is not part of it
 		mt = "text/css; charset=utf-8"
 	}
 	minified := mt == "text/css" || mt == "text/css; charset=utf-8" || usePattern && mt == "a/b; q=1"
